@@ -110,6 +110,7 @@ type Plan struct {
 	Users  []UserPlan   `json:"users,omitempty"`
 	Faults []vsys.Fault `json:"faults,omitempty"`
 	Stop   StopPlan     `json:"stop"`
+	UDP    *UDPPlan     `json:"udp,omitempty"`
 	Enum   bool         `json:"enum,omitempty"`   // C18: enumerate single faults over this scenario
 	EnumK  int          `json:"enum_k,omitempty"` // per site, call indexes 1..EnumK
 }
